@@ -1,6 +1,7 @@
 //! The step skeleton (DESIGN.md 2.2): concrete prefix, symbolic fillers A and B (=> arbitrary legal bump position,
 //! "other live blocks"), ONE operation with symbolic arguments through a stated entry point, then the oracles of
 //! C01 (valid / aligned / disjoint), C02 (contents), C10 (bookkeeping), C13 (reclaiming, opt-outs).
+use crate::check;
 use crate::common::*;
 use bump_scope::alloc::{AllocError, Allocator};
 use bump_scope::settings::BumpAllocatorSettings;
@@ -67,8 +68,8 @@ where
             w1.write(free_lo + ifree, SENTINEL);
         }
     }
-    assert!(addr(a) % la.align() == 0 && addr(b) % lb.align() == 0, "C01: filler misaligned");
-    assert!(disjoint(addr(a), la.size(), addr(b), lb.size()), "C01: fillers overlap");
+    check!(addr(a) % la.align() == 0 && addr(b) % lb.align() == 0, "C01: filler misaligned");
+    check!(disjoint(addr(a), la.size(), addr(b), lb.size()), "C01: fillers overlap");
     let allocated_before = bump.stats().allocated();
     let pos_before = addr(bump.stats().current_chunk().unwrap().bump_position());
 
@@ -164,7 +165,7 @@ where
 
     // C02: A is never disturbed, whatever happened (unless A itself was handed to the operation)
     if la.size() > 0 && !on_a {
-        assert!(unsafe { w1.read(addr(a) + ia) } == va, "C02: bytes of a live block (A) changed");
+        check!(unsafe { w1.read(addr(a) + ia) } == va, "C02: bytes of a live block (A) changed");
     }
     // C10 after every operation (heavy oracle: only in the harnesses registered for C10)
     if COHERENT {
@@ -176,12 +177,12 @@ where
             // C07: state intact, B still there (for ops that do not give it up before failing)
             if op != 5 && op != 6 && op != 9 {
                 if lb.size() > 0 {
-                    assert!(unsafe { w1.read(addr(b) + ib) } == vb, "C07/C02: bytes of B changed by a failed operation");
+                    check!(unsafe { w1.read(addr(b) + ib) } == vb, "C07/C02: bytes of B changed by a failed operation");
                 }
-                assert!(bump.stats().allocated() == allocated_before, "C07: failed allocation changed the allocated byte count");
-                assert!(addr(bump.stats().current_chunk().unwrap().bump_position()) == pos_before, "C07: failed allocation moved the bump position");
+                check!(bump.stats().allocated() == allocated_before, "C07: failed allocation changed the allocated byte count");
+                check!(addr(bump.stats().current_chunk().unwrap().bump_position()) == pos_before, "C07: failed allocation moved the bump position");
             }
-            assert!(bump.stats().count() == 1, "C07: failed allocation linked a chunk");
+            check!(bump.stats().count() == 1, "C07: failed allocation linked a chunk");
             if budget_for_op == 0 {
                 // C12/C07 sanity: it really did not fit
                 kani::cover!(true, "[b0] failure path taken");
@@ -191,8 +192,8 @@ where
             let n = nb.cast::<u8>();
             let nlen = nb.len();
             // ---- C01 ----
-            assert!(addr(n) % ln.align() == 0, "C01: block not aligned as requested");
-            assert!(nlen >= ln.size(), "C01: block smaller than requested");
+            check!(addr(n) % ln.align() == 0, "C01: block not aligned as requested");
+            check!(nlen >= ln.size(), "C01: block smaller than requested");
             let cur = bump.stats().current_chunk().unwrap();
             let (cs, ce) = (addr(cur.content_start()), addr(cur.content_end()));
             if ln.size() > 0 {
@@ -201,45 +202,45 @@ where
                 let mut it = bump.stats().small_to_big();
                 let first = it.next().unwrap();
                 let in_first = addr(n) >= addr(first.content_start()) && addr(n) + ln.size() <= addr(first.content_end());
-                assert!(in_current || in_first, "C01: block outside the memory the arena owns");
+                check!(in_current || in_first, "C01: block outside the memory the arena owns");
             }
             if !on_a {
-                assert!(disjoint(addr(n), ln.size(), addr(a), la.size()), "C01: block overlaps a live block (A)");
+                check!(disjoint(addr(n), ln.size(), addr(a), la.size()), "C01: block overlaps a live block (A)");
             }
             if op == 9 {
                 // deallocating a block that is not the newest reclaims nothing: its bytes are not handed out again
-                assert!(disjoint(addr(n), ln.size(), addr(a), la.size()), "C13: deallocating a block that is not the newest made its space reusable");
+                check!(disjoint(addr(n), ln.size(), addr(a), la.size()), "C13: deallocating a block that is not the newest made its space reusable");
             }
             if op == 7 || op == 8 {
                 let keep = if ln.size() < la.size() { ln.size() } else { la.size() };
                 let w = if w1.holds(addr(n)) { w1 } else { Win::of(cur) };
                 if la.size() > 0 && ia < keep {
-                    assert!(unsafe { w.read(addr(n) + ia) } == va, "C02: surviving prefix of a reallocated (non-newest) block differs from the old contents");
+                    check!(unsafe { w.read(addr(n) + ia) } == va, "C02: surviving prefix of a reallocated (non-newest) block differs from the old contents");
                 }
             }
             if b_live {
-                assert!(disjoint(addr(n), ln.size(), bl_addr, bl_len), "C01: block overlaps a live block (B, or the part of B that was kept)");
+                check!(disjoint(addr(n), ln.size(), bl_addr, bl_len), "C01: block overlaps a live block (B, or the part of B that was kept)");
                 if addr(b) + ib >= bl_addr && addr(b) + ib < bl_addr + bl_len {
-                    assert!(unsafe { w1.read(addr(b) + ib) } == vb, "C02: bytes of a live block (B) changed");
+                    check!(unsafe { w1.read(addr(b) + ib) } == vb, "C02: bytes of a live block (B) changed");
                 }
             }
             // ---- C02 ----
             let wn = Win::of(cur);
             let win = if w1.holds(addr(n)) { w1 } else { wn };
             if ln.size() > 0 {
-                assert!(win.holds(addr(n)) && win.holds(addr(n) + ln.size() - 1), "harness: new block outside the observation window");
+                check!(win.holds(addr(n)) && win.holds(addr(n) + ln.size() - 1), "harness: new block outside the observation window");
             }
             if realloc {
                 let keep = if ln.size() < lb.size() { ln.size() } else { lb.size() };
                 if ib < keep {
-                    assert!(unsafe { win.read(addr(n) + ib) } == vb, "C02: surviving prefix of a reallocated block differs from the old contents");
+                    check!(unsafe { win.read(addr(n) + ib) } == vb, "C02: surviving prefix of a reallocated block differs from the old contents");
                 }
             }
             if op == 1 || op == 3 {
                 let from = if op == 3 { lb.size() } else { 0 };
                 let i: usize = kani::any();
                 if i >= from && i < ln.size() {
-                    assert!(unsafe { win.read(addr(n) + i) } == 0, "C02: zeroed memory is not zero");
+                    check!(unsafe { win.read(addr(n) + i) } == 0, "C02: zeroed memory is not zero");
                 }
             }
             // "never writes outside the new block": a byte of the former free space that is not part of the new block
@@ -248,36 +249,36 @@ where
                 let f = free_lo + ifree;
                 let in_new = f >= addr(n) && f < addr(n) + ln.size();
                 if !in_new {
-                    assert!(unsafe { w1.read(f) } == SENTINEL, "C02: wrote outside the new block (free space of the chunk was modified)");
+                    check!(unsafe { w1.read(f) } == SENTINEL, "C02: wrote outside the new block (free space of the chunk was modified)");
                 }
             }
             // ---- C13 ----
             let allocated_after = bump.stats().allocated();
             let b_is_newest_reclaimable = lb.size() % St::MIN_ALIGN == 0;
             match op {
-                0 | 1 => assert!(allocated_after >= allocated_before, "C13: allocate decreased the allocated byte count"),
+                0 | 1 => check!(allocated_after >= allocated_before, "C13: allocate decreased the allocated byte count"),
                 2 | 3 => {
-                    assert!(allocated_after >= allocated_before, "C13: grow decreased the allocated byte count");
+                    check!(allocated_after >= allocated_before, "C13: grow decreased the allocated byte count");
                     if St::UP {
                         // growing the newest block upwards with unchanged alignment fit and enough room is in place
                         let room = ce - addr(b);
                         if addr(b) % ln.align() == 0 && ln.size() <= room && bump.stats().count() == 1 && b_is_newest_reclaimable {
-                            assert!(addr(n) == addr(b), "C13: growing the newest block with room left moved it");
+                            check!(addr(n) == addr(b), "C13: growing the newest block with room left moved it");
                         }
                     }
                 }
                 4 => {
                     if !St::SHRINKS || entry == Entry::NoShrink {
-                        assert!(allocated_after >= allocated_before, "C13: shrink decreased the allocated byte count although shrinking is off");
+                        check!(allocated_after >= allocated_before, "C13: shrink decreased the allocated byte count although shrinking is off");
                     }
                 }
                 6 => {}
-                7 | 8 | 9 => assert!(allocated_after >= allocated_before, "C13: an operation on a block that is not the newest decreased the allocated byte count"),
+                7 | 8 | 9 => check!(allocated_after >= allocated_before, "C13: an operation on a block that is not the newest decreased the allocated byte count"),
                 _ => {
                     if !St::DEALLOCATES || entry == Entry::NoDealloc {
-                        assert!(allocated_after >= allocated_before, "C13: deallocate changed the allocated byte count although deallocation is off");
+                        check!(allocated_after >= allocated_before, "C13: deallocate changed the allocated byte count although deallocation is off");
                     } else if b_is_newest_reclaimable && ln.size() == lb.size() && ln.align() == lb.align() {
-                        assert!(addr(n) == addr(b), "C13: re-requesting the layout of the just deallocated newest block gave a different address");
+                        check!(addr(n) == addr(b), "C13: re-requesting the layout of the just deallocated newest block gave a different address");
                     }
                 }
             }
@@ -285,7 +286,7 @@ where
     }
     // no base-allocator call when nothing was granted
     if budget_for_op == 0 {
-        assert!(grants() == 1, "C05: a chunk appeared without a grant");
+        check!(grants() == 1, "C05: a chunk appeared without a grant");
     }
     kani::cover!(true, "END: harness ran to completion");
 }
